@@ -47,6 +47,13 @@ func (e *Envelope) SetPayload(payload any) error {
 		return err
 	}
 
+	// Canonical JSON leaves control characters (e.g. the newlines of a
+	// recorded stdout) unescaped inside strings, which no JSON parser -
+	// including loadPayload - accepts. The canonical form has no whitespace
+	// outside of strings, so every control character in it belongs to a
+	// string and can be replaced by its JSON escape sequence.
+	encodedBytes = escapeControlCharacters(encodedBytes)
+
 	e.payload = payload
 	e.envelope = &dsse.Envelope{
 		Payload:     base64.StdEncoding.EncodeToString(encodedBytes),
@@ -54,6 +61,20 @@ func (e *Envelope) SetPayload(payload any) error {
 	}
 
 	return nil
+}
+
+// escapeControlCharacters replaces the bytes 0x00-0x1f of the passed canonical
+// JSON document by \u00XX escape sequences, turning it into valid JSON.
+func escapeControlCharacters(canonical []byte) []byte {
+	escaped := make([]byte, 0, len(canonical))
+	for _, b := range canonical {
+		if b < 0x20 {
+			escaped = append(escaped, []byte(fmt.Sprintf("\\u%04x", b))...)
+			continue
+		}
+		escaped = append(escaped, b)
+	}
+	return escaped
 }
 
 func (e *Envelope) GetPayload() any {
